@@ -39,18 +39,12 @@ theorem adjustment_noop (B : Mode → Color → Color → Color) (force : Bool) 
     (pr : Props) : applyFxNode B force V x y cc st (.adjustment pr) = st := by
   unfold applyFxNode; rfl
 
-def ownStrokeFx : FxNode → List StrokeFx
-  | .leaf _ fx _ _ _ => fx.strokeFx
-  | .group _ fx _ _ _ => fx.strokeFx
-  | .adjustment _ => []
-
-/-- **Zero opacity with overlay effects.** A layer (pixel or fill layer or group; any clip run, vector stroke, vector mask,
-any number of colour / pattern / gradient overlays) at opacity 0, not knocked out and without stroke effects, leaves alpha
-and colour alone (the accumulated shape may grow): the overlays are painted with the layer's `alpha`, which carries the
-layer opacity. -/
+/-- **Zero opacity with effects.** A layer (pixel or fill layer or group; any clip run, vector stroke, vector mask, any number
+of colour / pattern / gradient overlays and stroke effects) at opacity 0, not knocked out, leaves alpha and colour alone
+(the accumulated shape may grow): the overlays are painted with the layer's `alpha`, which carries the layer opacity, and
+the stroke effect's opacity is multiplied by the layer opacity (repaired: 59737c8). -/
 theorem zero_opacity_noop_fx (B : Mode → Color → Color → Color) (force : Bool) (V : Rect) (x y : Int) (cc : Bool)
-    (st : PState) (hst : Inv st) (n : FxNode) (hn : fxNodeOk n) (hko : n.props.knockout = false) (hop : n.props.opacity = 0)
-    (hns : ownStrokeFx n = []) :
+    (st : PState) (hst : Inv st) (n : FxNode) (hn : fxNodeOk n) (hko : n.props.knockout = false) (hop : n.props.opacity = 0) :
     let r := applyFxNode B force V x y cc st n
     r.ag = st.ag ∧ r.a = st.a ∧ (st.a ≠ 0 → ∀ ch, r.c ch = st.c ch) := by
   intro r
@@ -60,7 +54,6 @@ theorem zero_opacity_noop_fx (B : Mode → Color → Color → Color) (force : B
   | leaf pr fx src stroke clips =>
     obtain ⟨hp, hf, hsrc, _, hcl⟩ := hn
     simp only [FxNode.props] at hko hop
-    simp only [ownStrokeFx] at hns
     rw [hr]
     unfold applyFxNode
     split; · exact ⟨rfl, rfl, fun _ _ => rfl⟩
@@ -68,7 +61,7 @@ theorem zero_opacity_noop_fx (B : Mode → Color → Color → Color) (force : B
     split; · exact ⟨rfl, rfl, fun _ _ => rfl⟩
     have hc0 := leafColor_ok force V x y pr fx hsrc
     have hs0 := leafShape_unit force V x y pr fx hsrc
-    apply finishFx_zero_opacity B force V x y hst hp hf hko hop hns _ hs0.1 (le_refl _) hs0.2
+    apply finishFx_zero_opacity B force V x y hst hp hf hko hop _ hs0.1 (le_refl _) hs0.2
     apply strokeObject_ok
     split
     · exact hc0
@@ -76,7 +69,6 @@ theorem zero_opacity_noop_fx (B : Mode → Color → Color → Color) (force : B
   | group pr fx pt children clips =>
     obtain ⟨hp, hf, hch, hcl⟩ := hn
     simp only [FxNode.props] at hko hop
-    simp only [ownStrokeFx] at hns
     rw [hr]
     unfold applyFxNode
     split; · exact ⟨rfl, rfl, fun _ _ => rfl⟩
@@ -88,21 +80,21 @@ theorem zero_opacity_noop_fx (B : Mode → Color → Color → Color) (force : B
     simp only
     by_cases hin : (intersect V pr.bbox).contains x y = true
     · simp only [hin, if_true]
-      apply finishFx_zero_opacity B force V x y hst hp hf hko hop hns _ hsub.ag.1 hsub.ag_le hsub.sg.2
+      apply finishFx_zero_opacity B force V x y hst hp hf hko hop _ hsub.ag.1 hsub.ag_le hsub.sg.2
       split
       · exact fun ch => clip_unit _
       · exact (applyFxClips_inv B force V x y _ (inv_init (fun ch => clip_unit _) hsub.ag false) clips hcl).c
     · simp only [hin, Bool.false_eq_true, if_false]
-      apply finishFx_zero_opacity B force V x y hst hp hf hko hop hns _ (le_refl _) (le_refl _) (by norm_num)
+      apply finishFx_zero_opacity B force V x y hst hp hf hko hop _ (le_refl _) (le_refl _) (by norm_num)
       split
       · exact white_ok
       · exact (applyFxClips_inv B force V x y _ (inv_init white_ok unit01_zero false) clips hcl).c
 
 /-- the hypotheses are satisfiable: a white layer at opacity 0 with a black colour overlay -/
 example : fxNodeOk (.leaf (plainProps 0) overlayFx whiteSrc none []) ∧ (plainProps 0).knockout = false ∧
-    (plainProps 0).opacity = 0 ∧ ownStrokeFx (.leaf (plainProps 0) overlayFx whiteSrc none []) = [] := by
+    (plainProps 0).opacity = 0 := by
   refine ⟨⟨⟨unit01_zero, unit01_one, unit01_one, unit01_zero, unit01_one⟩, ⟨unit01_one, ?_, ?_⟩,
-    ⟨white_ok, unit01_one, white_ok, unit01_zero⟩, trivial, trivial⟩, rfl, rfl, rfl⟩
+    ⟨white_ok, unit01_one, white_ok, unit01_zero⟩, trivial, trivial⟩, rfl, rfl⟩
   · intro e he
     simp only [overlayFx, List.mem_singleton] at he
     subst he
@@ -118,14 +110,13 @@ theorem zero_opacity_overlay_needs_layer_opacity :
     (finishFxOpacityOmitted allNormalFx false unitRectFx 0 0 (PState.init white 0 false) (plainProps 0) overlayFx white 1 1).c 0 = 0 := by
   decide +kernel
 
-/-- **Stroke effects escape the law**: `_apply_stroke_effect` paints with `shape · opacity_effect`; neither the layer's
-opacity nor its alpha enters. A white layer at opacity 0 with a black stroke effect drawn as 1 at the pixel, on an empty
-backdrop: alpha 1, black. (Hypothesis `ownStrokeFx n = []` of `zero_opacity_noop_fx` cannot be dropped.) -/
-theorem zero_opacity_stroke_effect_paints :
-    (applyFxNode allNormalFx false unitRectFx 0 0 false (PState.init white 0 false)
-      (.leaf (plainProps 0) (strokeFxOnly constStroke) whiteSrc none [])).ag = 1 ∧
-    (applyFxNode allNormalFx false unitRectFx 0 0 false (PState.init white 0 false)
-      (.leaf (plainProps 0) (strokeFxOnly constStroke) whiteSrc none [])).c 0 = 0 := by
+/-- **The stroke effect needs the layer opacity as well** — before the repair (59737c8) `_apply_stroke_effect` painted
+with `shape · opacity_effect`, i.e. `applyStrokeFx` with layer opacity 1 whatever the layer's: a black stroke effect drawn
+as 1 at the pixel on an empty backdrop gives alpha 1, black; with the layer's opacity 0 it gives alpha 0. -/
+theorem zero_opacity_stroke_effect_needs_layer_opacity :
+    (applyStrokeFx allNormalFx unitRectFx unitRectFx 0 0 1 (PState.init white 0 false) [constStroke]).ag = 1 ∧
+    (applyStrokeFx allNormalFx unitRectFx unitRectFx 0 0 1 (PState.init white 0 false) [constStroke]).c 0 = 0 ∧
+    (applyStrokeFx allNormalFx unitRectFx unitRectFx 0 0 0 (PState.init white 0 false) [constStroke]).ag = 0 := by
   decide +kernel
 
 /-- **A fully transparent layer with overlay effects is a no-op.** A leaf whose object shape is 0 at the pixel (transparent
